@@ -3,7 +3,7 @@ EXTENDS Equals, IOUtils
 Thorough == "VERIF_TIER" \in DOMAIN IOEnv /\ IOEnv.VERIF_TIER = "thorough"
 Cands == NoteCands({0}, {60, 62}, {0, 4, 8}, {2, 5}, {70}) \cup NoteCands({1}, {60}, {0, 4}, {4}, {90})
 (* signature events also on channel 1: which channel a sequence "starts" on then depends on an event equals may ignore *)
-ExtraSets == {{}, {MTs(0, 0, 3, 4)}, {MTs(0, 0, 4, 4), MTs(6, 0, 3, 4)}, {MKs(0, 0, "G")}, {MTs(0, 0, 3, 4), MKs(2, 0, "D")},
+ExtraSets == {{MKs(0, 0, "Db")}, {MKs(2, 0, "F#")}, {MTs(0, 0, 4, 4), MKs(0, 0, "Cb")}, {}, {MTs(0, 0, 3, 4)}, {MTs(0, 0, 4, 4), MTs(6, 0, 3, 4)}, {MKs(0, 0, "G")}, {MTs(0, 0, 3, 4), MKs(2, 0, "D")},
               {MTs(0, 1, 3, 4)}, {MKs(0, 1, "G")}, {MTs(0, 0, 3, 4), MKs(0, 0, "D")}, {MTs(4, 0, 6, 8), MKs(4, 0, "E"), MKs(0, 0, "C")}}
 MC_Bases == {[notes |-> N, extras |-> X, dur |-> 0] : N \in NoteSets(Cands, IF Thorough THEN 3 ELSE 2) \ {{}}, X \in ExtraSets}
 =============================================================================
